@@ -206,7 +206,9 @@ def run_case(ctx, case):
     cm = ctx.cm
     rng = ctx.rng(case["i"], 1)
     t = build_input(case, rng)
-    path = os.path.join(ctx.scratch, "m_%d.em" % case["i"])
+    # a small pool of REUSED paths: a later case overwrites (within the same second, often with the same N) a file that an
+    # earlier case wrote and loaded - what a user does when iterating on "allmotl.em"
+    path = os.path.join(ctx.scratch, "m_%d.em" % (case["i"] % 3)) if case["i"] % 4 else os.path.join(ctx.scratch, "u_%d.em" % case["i"])
     if case["path_kind"] == "Motl.write_out":
         ok, m = ctx.call("Motl(df)", cm.Motl, t)
         if not ok:
@@ -246,7 +248,37 @@ def run_case(ctx, case):
         else:
             w = {"columns": list(bdf.columns), "rows": len(bdf), "expected_rows": len(exp)}
         ctx.check("roundtrip", good, dict(w or {}, loader=label))
-    try:
-        os.remove(path)
-    except OSError:
-        pass
+    # ---- history: the same object written again, and the same path rewritten with another list of the same length -------
+    exp_user64 = exp.astype(np.float64)
+    path2 = os.path.join(ctx.scratch, "copy_%d.em" % (case["i"] % 2))
+    if case["path_kind"] == "Motl.write_out":
+        ok, _ = ctx.call("Motl.write_out(again)", m.write_out, path2, "emmotl")
+    else:
+        ok, _ = ctx.call("EmMotl.write_out(again)", m.write_out, path2)
+    if ok:
+        em = files.parse_em(path2)
+        good = "error" not in em and tuple(em["dims"]) == (20, len(exp), 1)
+        w = {"what": "second write of the same object", "header": {k: em.get(k) for k in ("dims", "code", "nbytes")}}
+        if good:
+            w2 = first_diff(em["data"][:, :, 0].T.astype(np.float64), exp_user64)
+            good = w2 is None
+            w = dict(w2 or {}, what="second write of the same object differs from the list the user built")
+        ctx.check("roundtrip", good, w)
+    # overwrite the first path with a different list of the SAME length and load it again
+    other = ctx.rng(case["i"], 7).normal(size=t.shape) * 50
+    t2 = pd.DataFrame(other, columns=list(t.columns), index=t.index)
+    ok, m2 = ctx.call("EmMotl(df2)", cm.EmMotl, t2)
+    if ok:
+        exp2 = expected_f32(m2.df)
+        ok, _ = ctx.call("EmMotl.write_out(overwrite)", m2.write_out, path)
+        if ok:
+            ok, back = ctx.call("Motl.load(after overwrite)", cm.Motl.load, path)
+            if ok:
+                bdf = back.df
+                good = list(bdf.columns) == CANON and len(bdf) == len(exp2)
+                w = {"what": "file rewritten with another list of the same length, then loaded", "rows": len(bdf)}
+                if good:
+                    w2 = first_diff(bdf.to_numpy(dtype=np.float64), exp2.astype(np.float64))
+                    good = w2 is None
+                    w = dict(w2 or {}, what="loading a rewritten file returned something else than what was just written")
+                ctx.check("roundtrip", good, w)
